@@ -8,8 +8,10 @@ s = open(p).read()
 marker = "\n--------------------------------------------------------------------------\n\n## Appendix C. As-built notes per property"
 if marker in s:
     s = s[:s.index(marker)]
-out = [marker, "\n\n(Generated from `notes/C*.md` by `tools/mkdesign_appendix.py`; each section was written by the\nbuilder of that property after its check passed. Headings are demoted by two levels.)\n"]
-for f in sorted(glob.glob(os.path.join(ROOT, "notes", "C*.md"))):
+out = [marker, "\n\n(Generated from `notes/*.md` — the twenty properties first, then the bridges and further areas — by `tools/mkdesign_appendix.py`; each section was written by the\nbuilder of that property after its check passed. Headings are demoted by two levels.)\n"]
+files = sorted(glob.glob(os.path.join(ROOT, "notes", "C[0-9][0-9].md")))
+files += [f for f in sorted(glob.glob(os.path.join(ROOT, "notes", "*.md"))) if f not in files]  # bridges / areas
+for f in files:
     t = open(f).read().rstrip() + "\n"
     t = re.sub(r"^(#+) ", lambda m: "#" * (len(m.group(1)) + 2) + " ", t, flags=re.M)
     out.append("\n" + t)
